@@ -88,31 +88,39 @@ let links_str l = String.concat "," (List.map (fun (m, h) -> string_of_int (int_
 let compare_states (m : book) (c : book) : string option =
   let sortk l = List.sort (fun a b -> Int64.unsigned_compare (int64_of_n a) (int64_of_n b)) l in
   let mk = sortk m.bk_keys and ck = sortk c.bk_keys in
-  if List.map string_of_n mk <> List.map string_of_n ck then
+  if mk <> ck then
     Some (Printf.sprintf "keys:model=%d,cpp=%d" (List.length mk) (List.length ck))
   else begin
     let res = ref None in
+    let zi z = string_of_int (int_of_z z) in
     List.iter (fun h ->
         if !res = None then begin
-          let fld name a b = if !res = None && a <> b then
+          let bad name a b = if !res = None then
               res := Some (Printf.sprintf "node=%s,%s:model=%s,cpp=%s" (string_of_n h) name a b) in
-          let zi z = string_of_int (int_of_z z) in
-          fld "depth" (zi (depth m h)) (zi (depth c h));
+          let fz name a b = if a <> b then bad name (zi a) (zi b) in
+          let fn name a b = if a <> b then bad name (string_of_n a) (string_of_n b) in
+          fz "depth" (depth m h) (depth c h);
           let sm = score_of m h and sc = score_of c h in
-          fld "nm" (zi sm.s_nm) (zi sc.s_nm); fld "ecw" (zi sm.s_ecw) (zi sc.s_ecw); fld "ecb" (zi sm.s_ecb) (zi sc.s_ecb);
-          fld "pew" (zi sm.s_pew) (zi sc.s_pew); fld "peb" (zi sm.s_peb) (zi sc.s_peb);
+          fz "nm" sm.s_nm sc.s_nm; fz "ecw" sm.s_ecw sc.s_ecw; fz "ecb" sm.s_ecb sc.s_ecb;
+          fz "pew" sm.s_pew sc.s_pew; fz "peb" sm.s_peb sc.s_peb;
           let im = info m h and ic = info c h in
-          fld "move" (string_of_n im.ni_move) (string_of_n ic.ni_move);
-          fld "score" (zi im.ni_score) (zi ic.ni_score);
-          fld "time" (string_of_n im.ni_time) (string_of_n ic.ni_time);
-          fld "state" (string_of_n im.ni_state) (string_of_n ic.ni_state);
-          fld "children" (links_str (children m h)) (links_str (children c h));
-          fld "parents" (links_str (List.sort cmp_pair (parents m h))) (links_str (List.sort cmp_pair (parents c h)))
+          fn "move" im.ni_move ic.ni_move;
+          fz "score" im.ni_score ic.ni_score;
+          fn "time" im.ni_time ic.ni_time;
+          fn "state" im.ni_state ic.ni_state;
+          if children m h <> children c h then bad "children" (links_str (children m h)) (links_str (children c h));
+          let pm = List.sort cmp_pair (parents m h) and pc = List.sort cmp_pair (parents c h) in
+          if pm <> pc then bad "parents" (links_str pm) (links_str pc)
         end) ck;
     !res
   end
 
 let () =
+  if Array.length Sys.argv > 1 && Sys.argv.(1) = "negate" then begin
+    (* the regenerated Gallina negateScore on all 16-bit values (translator self-validation) *)
+    for s = -32768 to 32767 do Printf.printf "%d %d\n" s (int_of_z (negateScore (z_of_int s))) done;
+    exit 0
+  end;
   let requeue = Array.length Sys.argv > 1 && Sys.argv.(1) = "1" in
   let bd = ref { bd_depthCost = z_of_int 100; bd_ownCost = z_of_int 200; bd_otherCost = z_of_int 50 } in
   let model = ref (empty_book N0) in
@@ -125,6 +133,9 @@ let () =
   let flags = ref [] in
   let last_cpp = ref None in
   let tot_fail = ref 0 in
+  (* links that chess dictates for the nodes touched by the current operation (from the harness'
+     own move generation): (parent, move, child); checked against the C++ state, not the model *)
+  let expect_links : (n * n * n) list ref = ref [] in
   let apply o = model := apply_op requeue !bd !model o in
   (try
      while true do
@@ -151,6 +162,7 @@ let () =
             let ts = List.init nts (fun _ -> string_of_n (next_n c)) in
             let expect = List.sort compare (string_of_n h :: List.map (fun (_, p) -> string_of_n p) pl) in
             if List.sort compare ts <> expect then flags := "toSearch-mismatch" :: !flags;
+            expect_links := List.map (fun (m, p) -> (p, m, h)) pl @ List.map (fun (m, ch) -> (h, m, ch)) cl @ !expect_links;
             apply (OpAdd (h, a, pl, cl));
             opname := (if !opname = "ADD" || !opname = "IMPORT" then "IMPORT" else "ADD")
           | "SET" ->
@@ -177,6 +189,9 @@ let () =
             let ns = next_int c in
             let succ = List.init ns (fun _ -> let h = next_n c in let k = next_int c in (h, pairs_mh c k)) in
             pending := [];
+            (* complete files only: every successor link between two nodes of the file must exist *)
+            if List.length recs = na then
+              expect_links := List.concat (List.map (fun (h, l) -> List.map (fun (m, ch) -> (h, m, ch)) l) succ);
             apply (OpRead (recs, addrs, succ)); opname := "READ"
           | "NOP" -> opname := "NOP"
           | "G" -> if next c <> "ok" then flags := ("getPosition-bad:" ^ next c) :: !flags
@@ -187,7 +202,12 @@ let () =
             let lines = List.init n (fun _ -> input_line stdin) in
             let cpp = parse_state !root !pending lines in
             let m = if !model.bk_err <> N0 then Some ("modelerr=" ^ string_of_n !model.bk_err) else compare_states !model cpp in
-            let fails = check_all !bd cpp in
+            let missing = List.filter (fun (p, m, ch) ->
+                not (List.exists (fun (m', c') -> m' = m && c' = ch) (children cpp p) &&
+                     List.exists (fun (m', p') -> m' = m && p' = p) (parents cpp ch))) !expect_links in
+            let missing = List.sort_uniq compare (List.map (fun (p, _, _) -> (p, n_of_int 7)) missing) in
+            expect_links := [];
+            let fails = check_all !bd cpp @ missing in
             let cur_fail = Hashtbl.create 16 in
             let descr = List.map (fun (h, code) ->
                 let key = string_of_n h ^ ":" ^ string_of_n code in
